@@ -203,8 +203,17 @@ func init() {
 						return
 					}
 					c15Expect(x, "$reduce(a, function($a,$b,$c){$a})", doc, nil, true)
-				default: // literal empty array with and without a seed
+				default: // literal empty array with and without a seed; seeds that are the zero value of their kind
 					c15Expect(x, "$reduce([], "+f2+`, "S")`, doc, "S", false)
+					for _, seed := range []struct {
+						src string
+						val interface{}
+					}{{"0", 0.0}, {`""`, ""}, {"false", false}} {
+						c15Expect(x, "$reduce([], "+f2+", "+seed.src+")", doc, seed.val, false)
+						if n > 0 {
+							c15Expect(x, "$reduce(a, "+f2+", "+seed.src+")", doc, fold(seed.val, c15List(c15Arg(doc["a"]))), false)
+						}
+					}
 				}
 			}},
 			{Name: "append-reverse-zip", Quick: sizes(3), Thorough: sizes(4), ShardDepth: 3, Run: func(c *explore.Chooser, x *explore.Ctx, n int) {
@@ -293,7 +302,7 @@ func init() {
 			{Name: "compositions", Quick: sizes(4), Thorough: sizes(5), ShardDepth: 3, Run: func(c *explore.Chooser, x *explore.Ctx, n int) {
 				// the operand is used again after the function was applied to it
 				arr := c15Array(c, n, []interface{}{1.0, "1", 2.0, []interface{}{1.0}})
-				form := c.Choose(8)
+				form := c.Choose(10)
 				c.Done()
 				if n == 0 {
 					return
@@ -323,8 +332,56 @@ func init() {
 					c15Expect(x, "($r := $reverse(a); $count($distinct(a)) = $count($distinct($r)))", doc, true, false)
 				case 6:
 					c15Expect(x, "($m := $map(a, function($v){$v}); $f := $filter(a, function($v){true}); $append($m, $f))", doc, cat(arr, arr), false)
-				default:
+				case 7:
 					c15Expect(x, "($s := $shuffle(a); $append(a, a))", doc, cat(arr, arr), false)
+				case 8: // two results built from the same base never share storage
+					c15Expect(x, `{"x": $append(a, "p"), "y": $append(a, "q")}`, doc, map[string]interface{}{"x": cat(arr, []interface{}{"p"}), "y": cat(arr, []interface{}{"q"})}, false)
+				default:
+					out := []interface{}{}
+					for _, v := range []interface{}{"p", "q"} {
+						out = append(out, cat(arr, []interface{}{v}))
+					}
+					c15Expect(x, `$map(["p", "q"], function($x){[$append(a, $x)]})`, doc, out, false)
+				}
+			}},
+			{Name: "partials-as-callbacks", Quick: sizes(3), Thorough: sizes(4), ShardDepth: 3, Run: func(c *explore.Chooser, x *explore.Ctx, n int) {
+				// f(?, c...) used as the function argument behaves as the lambda function($v){f($v, c...)}:
+				// same outcome on every array, member by member (the fixed arguments are the same for every call)
+				pairs := [][2]string{
+					{`$string(?, false)`, `function($v){$string($v, false)}`},
+					{`$round(?, 1)`, `function($v){$round($v, 1)}`},
+					{`$pad(?, 3, ".")`, `function($v){$pad($v, 3, ".")}`},
+					{`$join(?, "-")`, `function($v){$join($v, "-")}`},
+					{`$substring(?, 0, 1)`, `function($v){$substring($v, 0, 1)}`},
+					{`$append(?, 9)`, `function($v){$append($v, 9)}`},
+					{`$reduce(?, function($a, $x){$a & $x}, "s")`, `function($v){$reduce($v, function($a, $x){$a & $x}, "s")}`},
+					{`$formatBase(?, 2)`, `function($v){$formatBase($v, 2)}`},
+					{`$contains(?, "1")`, `function($v){$contains($v, "1")}`},
+					{`$split(?, "", 1)`, `function($v){$split($v, "", 1)}`},
+					{`$sort(?, function($l, $r){$l > $r})`, `function($v){$sort($v, function($l, $r){$l > $r})}`},
+					{`$lookup(?, "a")`, `function($v){$lookup($v, "a")}`},
+				}
+				doms := [][]interface{}{{1.26, 2.5, "1", []interface{}{"x", "y"}}, {"ab1", "1", 3.0, map[string]interface{}{"a": 1.0}}}
+				pi := c.Choose(len(pairs))
+				arr := c15Array(c, n, doms[c.Choose(len(doms))])
+				hof := []string{"$map(a, F)", "$filter(a, F)", "a.F($)", "$map(a, F)[0]"}[c.Choose(4)]
+				c.Done()
+				doc := map[string]interface{}{"a": arr}
+				p1 := strings.Replace(hof, "F", pairs[pi][0], 1)
+				p2 := strings.Replace(hof, "F", "("+pairs[pi][1]+")", 1)
+				o1 := impl.Run(p1, doc)
+				o2 := impl.Run(p2, doc)
+				x.Eval()
+				x.Eval()
+				x.Validated()
+				same := o1.Kind == o2.Kind && o1.Class == o2.Class && (o1.Kind != impl.Value || impl.Equal(o1.Val, o2.Val))
+				if !same {
+					x.Violation("value", "value:"+p1+"|"+jsonText(doc), explore.Detail{Program: p1, Input: jsonText(doc),
+						Expected: "the outcome of " + p2 + ": " + o2.String(), Observed: o1.String()})
+				}
+				x.Outcome(o1.Short())
+				if o1.Kind == impl.Value {
+					x.Nontrivial()
 				}
 			}},
 			{Name: "distinct-shuffle", Quick: sizes(4), Thorough: sizes(5), ShardDepth: 3, Run: func(c *explore.Chooser, x *explore.Ctx, n int) {
